@@ -210,6 +210,7 @@ fn check_tsvd(case: &ProjCase, ctx: &mut Ctx) -> Result<(), Fail> {
 pub fn property() -> Property {
     Property {
         id: "C14",
+        quick_mult: 100,
         rule: "data matrices with 2<=n<=50 (quick) / 80 (thorough) rows and 1<=p<=8 columns, both n>p and n<=p: correlated columns (latent mixing) with column scales 1e-2..1e2 and means 0, ~10 or ~1e4, exactly rank-deficient (a duplicated or summed dyadic column), independent columns; every k in 1..p (truncated SVD: 1..p-1, k = p must be rejected); covariance and correlation mode; a random split point for the stacking relation. non-trivial = p >= 3 and k < p; distinct = distinct serialised case",
         assumptions: vec![
             format!("bounds are C*eps*max(n,p)*||Xc||^2 with C = {} plus the rounding of x.P - mu.P, 64*eps*(p+2)*sum_j (|mu_j|+spread_j) max|P_j.| per entry", C),
